@@ -13,6 +13,9 @@ CONSTANTS
   WithErrors = TRUE
   WithIdle = TRUE
   WithSleep = TRUE
+  WithExpect = TRUE
+  MaxExpect = 9
+  ExpFilters = {}
   WithWalFaults = TRUE
   WithStop = TRUE
   TimeoutTypes = {"R", "C", "G", "L", "K", "U", "R1", "R2", "C1", "C2", "G1", "E", "E2", "T", "P"}
